@@ -259,7 +259,7 @@ def run(ctx):
                        "an FX market saved at AD order two is compared through its rates (to 1e-12 relative), as the property states"]
     if translate_stage(ctx) is None:
         return ctx.finish(CMD)
-    if not proof_stage(ctx, ["theories/Run/RunJson.vo"]):
+    if not proof_stage(ctx, ["theories/Run/RunJson.vo", "theories/Run/RunCurve.vo"]):
         ctx.violation("a C16 proof obligation or the model no longer compiles",
                       {"no_failing_input": True, "theorem": "Props/C16.v / Run/RunJson.v", "log_tail": getattr(ctx, "build_log", "")[-3000:]})
         return ctx.finish(CMD)
@@ -298,9 +298,44 @@ def run(ctx):
     check_neq(ctx, objs_s)
     # (d) the pickle protocol through the interpreter, on both populations (the state is binary: every double is exact)
     check_pk(ctx, objs_s + objs_f)
+    curve_generic_stage(ctx)
     for o in objs_a[:3]:
         ctx.sample({"object_encoding": o[:60]})
     return ctx.finish(CMD)
+
+
+def curve_generic_stage(ctx):
+    """THE GENERIC entry point CurveDF::<T, U>::from_json (the Python-facing Curve wrapper and the tagged loader are the other
+    two): a curve built with CurveDF::try_new - any rule, any AD order, WITH an index base - saved with to_json, loaded with
+    the generic from_json, then queried: values, index values (which need the base), node index, stored nodes, against the
+    proved curve model of the constructed curve (`rlharness curve` path 2; Run/RunCurve.v treats the reloaded curve as the
+    curve)."""
+    import curverun as cr
+    rng = random.Random(ctx.seed * 32452843 + 23)
+    th = ctx.tier == "thorough"
+    cases, weights = [], []
+    for _ in range(400 if th else 40 * ctx.scale):
+        n = rng.choice([2, 3, 4, 6, 9])
+        _, ks = cr.gen_keys(rng, n)
+        _, ys = cr.gen_values(rng, n)
+        rule = rng.choice([0, 1, 2, 3, 4])
+        ad = rng.choice([0, 0, 1, 2])
+        base = rng.choice([None, 100.0, rng.uniform(50, 300), 1.0])
+        order = list(range(n))
+        rng.shuffle(order)
+        nodes = []
+        for i in order:
+            v = cr.enc_f(ys[i]) if ad == 0 else cr.enc_dual(["n%d" % i], ys[i], [1.0]) if ad == 1 else cr.enc_dual2(["n%d" % i], ys[i], [1.0], [[0.0]])
+            nodes.append((ks[i] * cr.NS, v))
+        acts = []
+        for x in rng.sample(cr.query_dates(rng, ks), 5):
+            acts += [cr.act_index(x), cr.act_value(x), cr.act_index_value(x)]
+        acts.append(cr.act_nodes())
+        cases.append(cr.mk_case(2, rule, ad, rng.choice(["v", "crv", "x1"]), base, nodes, acts))
+        weights.append(len(acts))
+        ctx.count("generic CurveDF::from_json: index base %s" % ("none" if base is None else "given"))
+    impl, model = cr.run_both(ctx, cases, shard=max(4, len(cases) // (NCPU * 2) + 1), tag="c16cv")
+    cr.compare_all(ctx, cases, impl, model, weights)
 
 
 def replay(ctx, rp):
@@ -308,6 +343,10 @@ def replay(ctx, rp):
     build_coq(["theories/Run/RunJson.vo"])
     part = rp.get("part")
     bad = True
+    if part is None and "case" in rp and "tree" not in rp and "object" not in rp:
+        import curverun as cr
+        build_coq(["theories/Run/RunCurve.vo"])
+        return cr.replay_case(ctx, rp)
     if part == "bare":
         x = rp["double_bits"]
         y = run_harness("json", ["f64rt %d" % x])[0][0]
